@@ -539,6 +539,17 @@ let check_export dd nv (names : string option array) (tables : string array list
       compare_header (fun m -> corr "%s" m) h moff hdr;
       h
   in
+  (* the mode the exporter chose: ASCII iff the settings force it, binary mode is not supported
+     (export.rs binary_supported: two children and a single terminal in the manager) or a terminal
+     other than "T" is exported *)
+  let want_ascii =
+    Model.export_ascii_mode settings (arity_of dd) nterm
+      (List.filter_map (fun (_, n) -> match n with DT d -> Some (mbytes_of_string d) | DI _ -> None) dump.dnodes)
+  in
+  if mh.Model.h_ascii <> want_ascii then
+    prop "the file is written in %s mode, expected %s mode (settings ascii=%b, binary_supported=%b)"
+      (if mh.Model.h_ascii then "ASCII" else "binary") (if want_ascii then "ASCII" else "binary") o.ascii
+      (Model.binary_supported (arity_of dd) nterm);
   (let l2v = Array.make nv 0 in
    Array.iteri (fun v l -> if l < nv then l2v.(l) <- v) v2l;
    let xh =
@@ -546,9 +557,7 @@ let check_export dd nv (names : string option array) (tables : string array list
        Model.x_ver3 = o.ver3;
        (* export.rs: ascii = settings.ascii || !binary_supported(manager) (two children and a single
           terminal in the manager) || some exported terminal is not printed as "T" *)
-       x_ascii =
-         Model.export_ascii_mode settings (arity_of dd) nterm
-           (List.filter_map (fun (_, n) -> match n with DT d -> Some (mbytes_of_string d) | DI _ -> None) dump.dnodes);
+       x_ascii = want_ascii;
        x_dd = mbytes_of_string (match o.ddname with Some d -> d | None -> "");
        x_nnodes = n_of_int (List.length dump.dnodes);
        x_vars = List.init nv (fun v -> (n_of_int v2l.(v), List.mem v supp));
@@ -581,7 +590,11 @@ let check_export dd nv (names : string option array) (tables : string array list
     | TdErr e -> corr "the reader with the arity check of the code: %s on an exported file with %d nodes" e nnodes
     | TdOk _ -> corr "the reader with the arity check of the code accepts an exported TDD file with %d nodes" nnodes);
     (match model_tdd false file slm with
-    | TdErr e -> corr "model TDD decoder rejects the exporter's file: %s" e
+    | TdErr e ->
+      (* no importer exists for this kind: the verified decoder of the written format stands in;
+         a file it cannot read does not describe the exported diagram *)
+      if export_ok then prop "the exporter returned Ok but the file is not a TDD dump (decoder of the model: %s)" e
+      else corr "model TDD decoder rejects the file of a failed strict-mode export: %s" e
     | TdSkip -> corr "model TDD decoder ran out of stack on the exporter's file"
     | TdOk (mhdr, st, roots) ->
       if mhdr <> mh then corr "TDD decoder returns another header than the loader";
